@@ -154,6 +154,46 @@ pub fn build(bins: &Binaries, repo: &Path, verif: &Path, thorough: bool, scratch
                         } else if !ok {
                             theories_rejected += 1;
                         }
+                        // second-generation theories: what anthem itself derives from this program (mu, natural, and the
+                        // gamma / completion images of the tau-star theory) as fixpoint inputs of their own
+                        if ok {
+                            let mut derived: Vec<(String, String)> = vec![];
+                            for (tag, args) in [
+                                ("mu", vec![s("translate"), s("--with"), s("mu"), f.to_string_lossy().into_owned()]),
+                                ("natural", vec![s("translate"), s("--with"), s("natural"), f.to_string_lossy().into_owned()]),
+                                ("gamma", vec![s("translate"), s("--with"), s("gamma"), tf.to_string_lossy().into_owned()]),
+                                ("completion", vec![s("translate"), s("--with"), s("completion"), tf.to_string_lossy().into_owned()]),
+                            ] {
+                                if let Ok(o) = e2::run_anthem(bins, &args, &probe_dir, None, &Env::plain(), &[], 120) {
+                                    if o.code == Some(0) && !o.stdout.is_empty() {
+                                        derived.push((tag.to_string(), String::from_utf8_lossy(&o.stdout).into_owned()));
+                                    }
+                                }
+                            }
+                            for (tag, theory) in derived {
+                                let df = probe_dir.join("d.txt");
+                                fs::write(&df, &theory).unwrap();
+                                let parses = e2::run_anthem(bins, &[s("parse"), s("--as"), s("theory"), df.to_string_lossy().into_owned()], &probe_dir, None, &Env::plain(), &[], 120).map(|o| o.code == Some(0)).unwrap_or(false);
+                                if !parses || !seen.insert((s("theory"), theory.clone())) {
+                                    continue;
+                                }
+                                let tname = s("input.theory.txt");
+                                let targ = format!("$IN/{tname}");
+                                for portfolio in ["classic", "ht", "intuitionistic"] {
+                                    if !thorough && portfolio != "classic" {
+                                        continue;
+                                    }
+                                    cmds.push(Cmd {
+                                        id: format!("simplify-{portfolio}-fixpoint:{tag}-of:{label}"),
+                                        kind: s("simplify"),
+                                        args: vec![s("simplify"), s("--portfolio"), s(portfolio), s("--strategy"), s("fixpoint"), targ.clone()],
+                                        files: vec![(tname.clone(), theory.clone())],
+                                        stdin_file: None,
+                                        uses_out: false,
+                                    });
+                                }
+                            }
+                        }
                     }
                 }
             }
